@@ -512,7 +512,34 @@ type opWrite struct {
 type opRecorder struct {
 	mu     sync.Mutex
 	writes []opWrite
+
+	// fault injection: the FaultAt-th create/update of a generated object (1-based)
+	// fails; FaultMode 1 = rejected before it is applied, 2 = applied, then the
+	// caller is told it failed (lost response).
+	FaultAt   int
+	FaultMode int
+	seen      int
+	Fired     bool
 }
+
+var errOpInjected = fmt.Errorf("verif: injected API server failure")
+
+// nextFault is asked before every create/update; it returns the fault mode to apply to this call.
+func (w *opRecorder) nextFault(obj any) int {
+	w.mu.Lock()
+	defer w.mu.Unlock()
+	if w.FaultAt <= 0 || w.Fired || !opIsGenerated(fmt.Sprintf("%T", obj)) {
+		return 0
+	}
+	w.seen++
+	if w.seen == w.FaultAt {
+		w.Fired = true
+		return w.FaultMode
+	}
+	return 0
+}
+
+func (w *opRecorder) disarm() { w.mu.Lock(); w.FaultAt = 0; w.mu.Unlock() }
 
 func (w *opRecorder) add(verb string, obj any, key string, err error) {
 	e := ""
@@ -547,12 +574,28 @@ func opNewClient(scheme *runtime.Scheme, rec *opRecorder, objs ...client.Object)
 		WithObjects(objs...).Build()
 	return interceptor.NewClient(base, interceptor.Funcs{
 		Create: func(ctx context.Context, c client.WithWatch, obj client.Object, opts ...client.CreateOption) error {
+			mode := rec.nextFault(obj)
+			if mode == 1 {
+				rec.add("create", obj, opKey(obj), errOpInjected)
+				return errOpInjected
+			}
 			err := c.Create(ctx, obj, opts...)
+			if mode == 2 && err == nil {
+				err = errOpInjected
+			}
 			rec.add("create", obj, opKey(obj), err)
 			return err
 		},
 		Update: func(ctx context.Context, c client.WithWatch, obj client.Object, opts ...client.UpdateOption) error {
+			mode := rec.nextFault(obj)
+			if mode == 1 {
+				rec.add("update", obj, opKey(obj), errOpInjected)
+				return errOpInjected
+			}
 			err := c.Update(ctx, obj, opts...)
+			if mode == 2 && err == nil {
+				err = errOpInjected
+			}
 			rec.add("update", obj, opKey(obj), err)
 			return err
 		},
